@@ -354,3 +354,14 @@ def duration_unit_rule(ctx: Ctx, rid: str, floor: int = 5):
                     if cap != "min" else "the pattern captures 'min' but the function has no case for it: the value falls to the default factor"),
                    key=key_of_text(rid, fn.qual, f"unit of {pat}"))
     ctx.floor(rid, floor)
+
+
+def maybe_true(r: ast.Return) -> bool:
+    """A return that can hand back a true value: anything but a constant False / None / 0.  (`return True`, but also
+    `return self._limitsOk(i)` or `return ok` -- the facts required for a positive answer must hold there too.)"""
+    v = r.value
+    if v is None:
+        return False
+    if isinstance(v, ast.Constant):
+        return bool(v.value)
+    return True
